@@ -88,3 +88,21 @@ def _nodes(node: 'val') -> 'list':
 def Tree_nodes(self: 'Tree') -> 'list':
     requires(wf_tnode(self.node))
     ensures(result == nodes_of(self.node))
+
+
+# ---- Tree.reset_variables (C10): contract stated on the real method and executed by the native sweep
+# (str.format with named fields and the first-fit search are outside the verified subset)
+
+@contract('penman.tree:Tree.reset_variables', bounded=True, why='str.format(**fields), first-fit while loop')
+def reset_variables(self: 'Tree', fmt: 'str') -> 'none':
+    modifies(self)
+    requires(wf_tnode(self.node))
+    requires('{i}' in fmt or '{j}' in fmt)          # (without them: recorded finding N4, no termination)
+    # same shape, roles, concepts and constants; the variables are renamed by a bijection
+    ensures(len(nodes_of(self.node)) == len(nodes_of(old(self).node)), label='same-nodes')
+    ensures(len({n[0] for n in nodes_of(self.node)}) == len({n[0] for n in nodes_of(old(self).node)}), label='injective')
+    ensures(all(len({m[0] for n, m in zip(nodes_of(old(self).node), nodes_of(self.node)) if n[0] == v}) == 1
+                for v in {n[0] for n in nodes_of(old(self).node)}), label='consistent')
+    ensures(all([r for r, _ in n[1]] == [r for r, _ in m[1]]
+                for n, m in zip(nodes_of(old(self).node), nodes_of(self.node))), label='roles-kept')
+    ensures(self.metadata == old(self).metadata, label='metadata-kept')
